@@ -75,8 +75,13 @@ CHECKS["C15"] = dict(
           "assignment ever re-binds a slot; plus a decide-witness that the code before the repair violated it. Tied to the "
           "code by running histories (exhaustive to depth 3/4 over a reduced alphabet, random to length 40 over all four "
           "property kinds and three physics) as Lua scripts through the real femmcli and comparing the saved files "
-          "(independent parser) with the model, and judged by an identity-tracking oracle independent of the model."),
-    design_ref="DESIGN.md section 3, C15",
+          "(independent parser) with the model, and judged by an identity-tracking oracle independent of the model; histories "
+          "that re-define an existing name are judged by names. PARTIAL (decided per run only): the clause 'analysis uses exactly "
+          "that association or refuses' - electrostatic histories are analysed in the session that built them and the saved "
+          "file is analysed in a fresh session; the potentials next to every entity tell which property each analysis applied. "
+          "Known finding: a name assigned before a property of that name exists is used by the in-session mesher, not by the "
+          "saved file."),
+    design_ref="DESIGN.md section 3, C15 and section 0.9",
     technique="Lean 4 proof (invariant by induction over operation histories, refinement to ghost identities) + model/implementation correspondence over exhaustive and random Lua edit histories",
 )
 
